@@ -202,6 +202,9 @@ func VerifC11EventsNative() {
 		data = "not json"
 	} else if v.ReplayBool("flag:v.flatten.err") {
 		data = `{"@context": 42, "@id": "x"}`
+		if v.ReplayBool("flag:v.flatten.plain") {
+			data = `{"@id": "http://example.com/g", "@graph": "http://example.com/x"}`
+		}
 	}
 	if v.ReplayBool("flag:v.eval.err") || v.ReplayBool("flag:v.eval.empty") {
 		fmt.Println("VERIF_NOT_REPRODUCIBLE evaluation faults cannot be provoked from outside")
